@@ -1,170 +1,19 @@
 package seq
 
-import (
-	"strconv"
-	"sync"
-)
+import "verifharness/lib"
 
-// A codec runs a check written over small integer codes on collections of another element type.
-// The codes 0..5 of the "any" codec are the values that look empty in one way or another
-// (nil, "", a nil slice, a nil pointer, false, 0): the places where a library that asks
-// "is this value defined?" instead of "is there a value?" goes wrong.
-type codec[E any] struct {
-	name string
-	enc  func(code int) E
-	dec  func(v E) int
-}
-
+// local names for the shared codecs (lib/codec.go)
 var (
-	cellMu sync.Mutex
-	cells  = map[int]*int{}
+	cdInt      = lib.CdInt
+	cdAny      = lib.CdAny
+	cdString   = lib.CdString
+	cdSlice    = lib.CdSlice
+	cdPtr      = lib.CdPtr
+	codecNames = lib.CodecNames
+	encAny     = lib.EncAny
+	decAny     = lib.DecAny
+	cell       = lib.Cell
 )
 
-// cell returns the one pointer that stands for the code
-func cell(code int) *int {
-	cellMu.Lock()
-	defer cellMu.Unlock()
-	p, ok := cells[code]
-	if !ok {
-		v := code
-		p = &v
-		cells[code] = p
-	}
-	return p
-}
-
-func encAny(c int) any {
-	switch c {
-	case 0:
-		return nil
-	case 1:
-		return ""
-	case 2:
-		return []int(nil)
-	case 3:
-		return (*int)(nil)
-	case 4:
-		return false
-	case 5:
-		return int64(0)
-	}
-	k := c % 6
-	if c < 0 {
-		k = 0
-	}
-	switch k {
-	case 0:
-		return c
-	case 1:
-		return strconv.Itoa(c)
-	case 2:
-		return []int{c}
-	case 3:
-		return cell(c)
-	case 4:
-		return float64(c)
-	default:
-		return int64(c)
-	}
-}
-
-func decAny(v any) int {
-	switch x := v.(type) {
-	case nil:
-		return 0
-	case string:
-		if x == "" {
-			return 1
-		}
-		n, err := strconv.Atoi(x)
-		if err != nil {
-			return -999999
-		}
-		return n
-	case []int:
-		if len(x) == 0 {
-			return 2
-		}
-		return x[0]
-	case *int:
-		if x == nil {
-			return 3
-		}
-		return *x
-	case bool:
-		return 4
-	case int64:
-		if x == 0 {
-			return 5
-		}
-		return int(x)
-	case float64:
-		return int(x)
-	case int:
-		return x
-	}
-	return -999998
-}
-
-var (
-	cdInt = codec[int]{"int", func(c int) int { return c }, func(v int) int { return v }}
-	cdAny = codec[any]{"any", encAny, decAny}
-	// strings: code 0 is the empty string
-	cdString = codec[string]{"string", func(c int) string {
-		if c == 0 {
-			return ""
-		}
-		return strconv.Itoa(c)
-	}, func(s string) int {
-		if s == "" {
-			return 0
-		}
-		n, err := strconv.Atoi(s)
-		if err != nil {
-			return -999999
-		}
-		return n
-	}}
-	// slices (an uncomparable type): code 0 is the nil slice
-	cdSlice = codec[[]int]{"slice", func(c int) []int {
-		if c == 0 {
-			return nil
-		}
-		return []int{c}
-	}, func(v []int) int {
-		if len(v) == 0 {
-			return 0
-		}
-		return v[0]
-	}}
-	// pointers: code 0 is the nil pointer
-	cdPtr = codec[*int]{"ptr", func(c int) *int {
-		if c == 0 {
-			return nil
-		}
-		return cell(c)
-	}, func(p *int) int {
-		if p == nil {
-			return 0
-		}
-		return *p
-	}}
-)
-
-func encAll[E any](cd codec[E], codes []int) []E {
-	out := make([]E, len(codes))
-	for i, c := range codes {
-		out[i] = cd.enc(c)
-	}
-	return out
-}
-
-func decAll[E any](cd codec[E], vals []E) []int {
-	out := make([]int, len(vals))
-	for i, v := range vals {
-		out[i] = cd.dec(v)
-	}
-	return out
-}
-
-var codecNames = []string{"int", "int", "any", "string", "slice", "ptr"}
+func encAll[E any](cd lib.Codec[E], codes []int) []E { return lib.EncAll(cd, codes) }
+func decAll[E any](cd lib.Codec[E], vals []E) []int  { return lib.DecAll(cd, vals) }
